@@ -39,18 +39,23 @@ class Probe(Command):
             params.ListParameter(params.ListParameter(params.ResultParameter())), required=False
         ),
         "Fail": params.StringParameter(required=False),
+        "Ignore": params.ListParameter(params.StringParameter(), required=False),
+        "Null": params.StringParameter(required=False),
     }
     output = params.ListParameter()
 
     def execute(self, **kw):
         deps = [kw[k] for k in ("D1", "D2", "D3", "D4", "D5") if k in kw]
         deps += list(kw.get("L", [])) + list(_flat(kw.get("NL", []))) + list(_flat(kw.get("NNL", [])))
-        vals = tuple((d.result_name, d.result) for d in deps)
+        skip = set(kw.get("Ignore", []))  # a short-circuiting consumer: these references are never read
+        vals = tuple((d.result_name, d.result) for d in deps if d.result_name not in skip)
         fail = kw.get("Fail")
         if fail == "mpilot":
             raise ProbeFailure(self.lineno)
         if fail == "raw":
             raise ZeroDivisionError("probe")
+        if kw.get("Null"):
+            return None
         return Term((self.result_name, vals))
 
 
